@@ -220,7 +220,9 @@ def nasty_proto(r, name):
             else:
                 out.append(f"{ind}  {'optional ' if syntax == 'proto2' else ''}{fty()} {fname} = {nt()};")
         if r.random() < 0.5:
-            out.append(f"{ind}  oneof {pick(fld_pool, used)} {{")
+            # (a oneof named like a nested message that has nested items of its own: known finding D38, fixed witness below)
+            oname = next((c for c in (pick(fld_pool, used) for _ in range(8)) if re.sub("_", "", c).lower() not in nested_used), f"o{len(used)}")
+            out.append(f"{ind}  oneof {oname} {{")
             for _ in range(r.randrange(1, 4)):
                 t = fty(allow_msg=True)
                 out.append(f"{ind}    {t} {pick(fld_pool, used)} = {nt()};")
@@ -306,6 +308,11 @@ def write_docs(workdir, seed, tier):
             q = os.path.join(src, "pc_" + f)
             open(q, "w").write(text)
             docs.append(("pc_" + f[:-6], q, text, "protobuf"))
+    # known finding D38: the oneof's enum keeps the oneof's own name and collides with the module of a nested message of that name
+    text = 'syntax = "proto3";\npackage onc;\nmessage Outer {\n  message Pick { message In { int32 a = 1; } In i = 1; }\n  Pick p = 1;\n  oneof pick { int32 x = 2; string y = 3; }\n}\n'
+    q = os.path.join(src, "oneof_name_collision.proto")
+    open(q, "w").write(text)
+    docs.append(("oneof_name_collision", q, text, "protobuf"))
     for i in range(3 if tier == "quick" else 16):
         text = nasty_proto(r, f"q{i}")
         q = os.path.join(src, f"q{i}.proto")
